@@ -6,6 +6,6 @@ IDS="$@"
 for c in $IDS; do
   /verif/check $c $TIER > /tmp/sweep-$c-$TIER.log 2>&1
   rc=$?
-  echo "rc=$rc $(grep -E "^$c $TIER:" /tmp/sweep-$c-$TIER.log)"
-  grep -E "^(VIOLATION|KNOWN-FINDING|BUILD-FAILED|NOTE)" /tmp/sweep-$c-$TIER.log | head -5
+  echo "rc=$rc $(grep -a -E "^$c $TIER:" /tmp/sweep-$c-$TIER.log)"
+  grep -a -E "^(VIOLATION|KNOWN-FINDING|BUILD-FAILED|NOTE)" /tmp/sweep-$c-$TIER.log | head -5
 done
